@@ -1340,3 +1340,12 @@ package mcp
 //@   ensures @keep-alive-is-for-the-returned-session calls(keepalive) == 1 ==> callArg(keepalive, 1, 0) == result.0 && result.0 == callResult(dial, 1, 0)
 //@   ensures @failed-connect-starts-nothing result.1 != nil ==> calls(keepalive) == 0 && result.0 == nil
 //@   snapshot dialled after call filterSupportedVersions
+
+// checkRequest (C02, error codes): an unknown method is "not handled" (which processResult maps to method-not-found,
+// -32601); a call to a notification method, a notification to a call method and missing required params are invalid
+// requests (-32600); only a request that passes all four is handed to its method.
+//@ func checkRequest [C02]
+//@   requires req != nil
+//@   ensures @unknown-method !inDom(infos, req.Method) ==> result.1 != nil && errIs(result.1, jsonrpc2.ErrNotHandled)
+//@   ensures @known-method-accepted-or-invalid inDom(infos, req.Method) ==> result.1 == nil || errIs(result.1, jsonrpc2.ErrInvalidRequest)
+//@   ensures @accepted-request-gets-its-own-method-info result.1 == nil ==> inDom(infos, req.Method) && result.0 == infos[req.Method]
